@@ -33,28 +33,14 @@ def strategy(tier):
     return gen.opf_case(cfg=CFG)
 
 
-def input_shapes(case, net, maps, undispatched):
-    """facts about the input that name a root-cause class of a cost mismatch; undispatched: positions of the cost entries
-    whose element is not a variable of the optimisation (appended)"""
+def input_shapes(case):
+    """facts about the input, used as labels (and as detail of an unexplained failure)"""
     shapes = set()
-    recipe = case["recipe"]
     by_type = {}
-    for e in recipe["el"]:
+    for e in case["recipe"]["el"]:
         by_type.setdefault(e["t"], []).append(e)
     has_pwl = any(c["kind"] == "pwl" for c in case["costs"])
-    any_q_slope = any(c.get("cq1_eur_per_mvar") or c.get("cq2_eur_per_mvar2") for c in case["costs"]) or \
-        any(c["kind"] == "pwl" and c["power_type"] == "q" for c in case["costs"])
-    vm = net.res_bus.va_degree
-    seen = []
     for c in case["costs"]:
-        e = by_type[c["et"]][c["k"]]
-        idx = maps[c["et"]][c["k"]]
-        buses = [net.dcline.at[idx, "from_bus"], net.dcline.at[idx, "to_bus"]] if c["et"] == "dcline" else [net[c["et"]].at[idx, "bus"]]
-        dead = any(math.isnan(float(vm.at[b])) for b in buses)
-        if not gen._dispatchable(e) or dead:
-            shapes.add("undispatched-entry")
-            undispatched.append(len(seen))
-        seen.append(c)
         if c["kind"] == "poly":
             even = c.get("cp2_eur_per_mw2") or c.get("cp0_eur")
             if c["et"] in ("load", "storage"):
@@ -63,11 +49,42 @@ def input_shapes(case, net, maps, undispatched):
                 shapes.add("consumer-even-term")
             if has_pwl and (c.get("cp0_eur") or c.get("cq1_eur_per_mvar") or c.get("cq0_eur")):
                 shapes.add("pwl+poly-const-or-q")
-            if c.get("cq0_eur") and not any_q_slope and case["opt"]["mode"] == "ac":
-                shapes.add("q-constant-only")
         if c["et"] == "dcline" and any("index" in g for g in by_type.get("gen", [])):
             shapes.add("dcline-cost+gen-index-gap")
     return shapes
+
+
+def known_deviations(case, parts, dispatched, ac):
+    """What the recorded (known, unrepaired) shapes take away from res_cost, computed by the harness from the input and the result
+    powers: (a) the entry of an element that is not dispatched is left out; (b) next to pwl costs a polynomial entry keeps only
+    its cp1 term (constant and reactive part are lost); (c) without any reactive cost slope a reactive constant is left out.
+    Anything that these do not explain exactly gets the unlisted signature res_cost/<mode>/other."""
+    comp = {}
+    costs = case["costs"]
+    has_pwl = any(c["kind"] == "pwl" for c in costs)
+    any_q_slope = any(c.get("cq1_eur_per_mvar") or c.get("cq2_eur_per_mvar2") for c in costs) or \
+        any(c["kind"] == "pwl" and c["power_type"] == "q" for c in costs)
+    for k, (c, part) in enumerate(zip(costs, parts)):
+        if not dispatched[k]:
+            comp["undispatched-entry-dropped"] = comp.get("undispatched-entry-dropped", 0.0) + part[-1]
+        elif c["kind"] == "poly":
+            qv = part[4]
+            if has_pwl:
+                lost = c.get("cp0_eur", 0.0)
+                if ac and qv is not None:
+                    lost += c.get("cq1_eur_per_mvar", 0.0) * qv + c.get("cq2_eur_per_mvar2", 0.0) * qv * qv + c.get("cq0_eur", 0.0)
+                comp["pwl-poly-mix-drops-const-or-q"] = comp.get("pwl-poly-mix-drops-const-or-q", 0.0) + lost
+            elif ac and not any_q_slope and c.get("cq0_eur"):
+                comp["q-constant-without-q-slope"] = comp.get("q-constant-without-q-slope", 0.0) + c["cq0_eur"]
+    return comp
+
+
+def oracle_a(net, maps, case, dispatched, ac):
+    total, parts = gen.user_cost(net, maps, case["costs"], ac)
+    scale = 1.0 + sum(abs(p[-1]) for p in parts)
+    comp = known_deviations(case, parts, dispatched, ac) if not math.isnan(total) else {}
+    return dict(total=total, parts=parts, scale=scale, comp=comp, got=float(net.res_cost),
+                dev=float(net.res_cost) - (total - sum(comp.values())))
 
 
 def check(case):
@@ -79,6 +96,7 @@ def check(case):
     dead_dc = gen.dcline_dead_terminal(net)
     if dead_dc:
         res.label("dcline-dead-terminal")
+    dispatched = gen.cost_entries_dispatched(case, net, maps)
     try:
         with silence():
             gen.run_opf(net, opt)
@@ -88,77 +106,82 @@ def check(case):
             res.skipped = what
         elif dead_dc:
             res.fail("dcline-dead-terminal/crash", error=repr(e)[:300], where=what, opt=opt)
+        elif what.endswith("totcost.py:totcost") and case["costs"] and not any(dispatched):
+            res.fail("crash/costs-only-on-undispatched-elements", error=repr(e)[:300], where=what, opt=opt)
         else:
             res.fail(what, error=repr(e)[:300], opt=opt)
         return res
     if not net.get("OPF_converged", False):
         res.skipped = "not-converged"
         return res
-    undispatched = []
-    shapes = input_shapes(case, net, maps, undispatched)
+    if dead_dc:
+        # the result of such a problem is not a valid operating point (known finding of C16, dcline-dead-terminal/wrong-result);
+        # the cost oracles have nothing sound to compare it with
+        res.skipped = "dcline-dead-terminal"
+        return res
+    shapes = input_shapes(case)
     # ---- oracle A: res_cost = sum of the user's cost functions at the result powers
-    total, parts = gen.user_cost(net, maps, case["costs"], ac)
-    scale = 1.0 + sum(abs(p[-1]) for p in parts)
-    got = float(net.res_cost)
     tolA = 1e-6
+    A = oracle_a(net, maps, case, dispatched, ac)
+    total, parts, scale = A["total"], A["parts"], A["scale"]
     if not case["costs"]:
         res.label("no-costs")          # documented: overall generated power is minimised
     elif math.isnan(total):
         res.label("cost-on-dead-element")
-    elif abs(got - total) > tolA * scale:
-        retried = False
-        if ac and abs(got - total) <= 5e-3 * scale and any(c["kind"] == "pwl" for c in case["costs"]):
+    else:
+        if abs(A["dev"]) > tolA * scale and ac and abs(A["dev"]) <= 5e-3 * scale and any(c["kind"] == "pwl" for c in case["costs"]):
             # a pwl cost enters res_cost through an epigraph variable of the interior-point solver, which meets the cost function
             # only within the solver tolerances (measured up to 1.3e-3 relative; 1.4e-8 with 1000x tighter tolerances):
             # a small deviation is re-evaluated with tight tolerances before it counts
             net2, maps2 = gen.build(case)
+            retried = False
             try:
                 with silence():
                     gen.run_opf(net2, opt, tight=True)
                 if net2.get("OPF_converged", False):
-                    total, parts = gen.user_cost(net2, maps2, case["costs"], ac)
-                    got = float(net2.res_cost)
-                    scale = 1.0 + sum(abs(p[-1]) for p in parts)
-                    retried = True
+                    A = oracle_a(net2, maps2, case, dispatched, ac)
+                    retried = not math.isnan(A["total"])
             except Exception:
                 pass
             res.label("A:retried-with-tight-tolerances" if retried else "A:pwl-gap-not-reevaluated")
             if not retried:
-                got = total
-        if abs(got - total) > tolA * scale:
-            if undispatched:
-                # the entries of elements that are not dispatched are either left out of res_cost (a constant is missing) or
-                # charged to another generator (lookup entry -1): tell the two apart by the observation
-                only_dispatched = sum(p[-1] for k, p in enumerate(parts) if k not in undispatched)
-                if abs(got - only_dispatched) <= tolA * scale:
-                    shapes = (set(shapes) - {"undispatched-entry"}) | {"undispatched-entry-dropped"}
-            res.fail("res_cost/%s/%s" % (opt["mode"], "+".join(sorted(shapes)) or "other"), res_cost=got, user_cost=total,
-                     parts=[list(p) for p in parts][:10])
+                A = dict(A, dev=0.0)
+        detail = dict(res_cost=A["got"], user_cost=A["total"], parts=[list(p) for p in A["parts"]][:10])
+        if abs(A["dev"]) > tolA * A["scale"]:
+            res.fail("res_cost/%s/other" % opt["mode"], unexplained=A["dev"], known_components=A["comp"], shapes=sorted(shapes), **detail)
+        else:
+            for name, val in sorted(A["comp"].items()):
+                if abs(val) > tolA * A["scale"]:
+                    res.label("shape:" + name)
+                    res.fail("res_cost/" + name, missing_in_res_cost=val, **detail)
     # ---- oracle B: independent optimum (DC)
     if not ac and case["costs"] and not math.isnan(total):
-        shapes = set(shapes)
-        if len(net.dcline) and (net.dcline.in_service & ((net.dcline.loss_percent != 0) | (net.dcline.loss_mw != 0))).any():
-            shapes.add("lossy-dcline")
-        for i in net.impedance.index:       # an impedance has no declared loading limit
-            pf = float(net.res_impedance.at[i, "p_from_mw"])
-            if not math.isnan(pf) and abs(pf) >= float(net.impedance.at[i, "sn_mva"]) * (1 - 1e-4):
-                shapes.add("impedance-at-sn_mva")
         out = ref.reference_optimum(net, maps, case["costs"])
         res.label("B:" + out["status"])
+        detail = dict(user_cost_of_result=total, res_cost=float(net.res_cost), parts=[list(p) for p in parts][:10])
         if out["status"] == "optimal":
             tolB = 2e-4 * scale
             d = total - out["cost"]        # the user's cost of pandapower's dispatch against the reference optimum
             if d > tolB:
-                res.fail("dc-optimum/suboptimal/%s" % ("+".join(sorted(shapes)) or "other"), user_cost_of_result=total,
-                         reference_optimum=out["cost"], res_cost=got, reference_dispatch=out["dispatch"], parts=[list(p) for p in parts][:10])
+                sig = "dc-optimum/suboptimal"
+                at_rating = [int(i) for i in net.impedance.index
+                             if not math.isnan(float(net.res_impedance.at[i, "p_from_mw"])) and
+                             abs(float(net.res_impedance.at[i, "p_from_mw"])) >= float(net.impedance.at[i, "sn_mva"]) * (1 - 1e-4)]
+                if at_rating:
+                    # known: the OPF limits the flow of an impedance to impedance.sn_mva although no loading limit can be declared
+                    # for it; only if the reference with exactly this extra limit has pandapower's cost the known signature applies
+                    out2 = ref.reference_optimum(net, maps, case["costs"], impedance_rating=True)
+                    if out2["status"] == "optimal" and abs(total - out2["cost"]) <= tolB:
+                        sig = "dc-optimum/suboptimal/impedance-at-sn_mva"
+                        res.label("shape:impedance-at-sn_mva")
+                res.fail(sig, reference_optimum=out["cost"], reference_dispatch=out["dispatch"], shapes=sorted(shapes), **detail)
             elif d < -tolB:
-                res.fail("dc-optimum/below-reference-optimum/%s" % ("+".join(sorted(shapes)) or "other"), user_cost_of_result=total,
-                         reference_optimum=out["cost"], res_cost=got, reference_dispatch=out["dispatch"], parts=[list(p) for p in parts][:10])
+                res.fail("dc-optimum/below-reference-optimum", reference_optimum=out["cost"], reference_dispatch=out["dispatch"],
+                         shapes=sorted(shapes), **detail)
             if out.get("binding_branch"):
                 res.label("B:binding-branch-limit")
         elif out["status"] == "infeasible":
-            res.fail("dc-optimum/converged-on-infeasible-problem/%s" % ("+".join(sorted(shapes)) or "other"), res_cost=got,
-                     why=out.get("why"))
+            res.fail("dc-optimum/converged-on-infeasible-problem", why=out.get("why"), shapes=sorted(shapes), **detail)
     live = gen.energized_buses(net)
     zombies = [int(b) for b in net.bus.index if b not in live and not math.isnan(float(net.res_bus.at[b, "va_degree"]))]
     if zombies:
@@ -168,10 +191,6 @@ def check(case):
             detail = [[sg, d] for sg, d in res.failures][:3]
             del res.failures[:]
             res.fail("dead-island-kept-alive", buses=zombies[:6], other_failures=detail)
-    if dead_dc and res.failures:
-        detail = [[sg, d] for sg, d in res.failures][:4]
-        del res.failures[:]
-        res.fail("dcline-dead-terminal/wrong-result", failures=detail)
     # ---- classification
     kinds = set()
     for c in case["costs"]:
